@@ -109,8 +109,7 @@ class LCDDocFilter(DocumentFilter):
     supported_styles = {
       StyleProperties.DisplayAlign: [],
       StyleProperties.Extent: [],
-      StyleProperties.Origin: [],
-      StyleProperties.Position: []
+      StyleProperties.Origin: []
     }
 
     if self.config.preserve_text_align:
@@ -123,6 +122,12 @@ class LCDDocFilter(DocumentFilter):
       supported_styles.update({StyleProperties.BackgroundColor: []})
 
     style_filter = SupportedStylePropertiesFilter(supported_styles)
+
+    # tts:position is only kept on regions until it has been resolved into tts:origin below
+
+    region_style_filter = SupportedStylePropertiesFilter({**supported_styles, StyleProperties.Position: []})
+
+    initial_position = doc.get_initial_value(StyleProperties.Position)
 
     style_filter.process_initial_values(doc)
 
@@ -152,7 +157,11 @@ class LCDDocFilter(DocumentFilter):
       animation_filter.process_element(region)
 
       # cleanup styles
-      style_filter.process_element(region)
+      region_style_filter.process_element(region)
+
+      if initial_position is not None and \
+        region.get_style(StyleProperties.Position) is None and region.get_style(StyleProperties.Origin) is None:
+        region.set_style(StyleProperties.Position, initial_position)
 
       # compute extent, which is needed to compute the position
 
